@@ -179,6 +179,10 @@ inductive Cmd (α : Type)
   | compute
   | setNoData (v : α)
 
+def Cmd.isAdd : Cmd α → Bool
+  | .add _ _ => true
+  | _ => false
+
 def step (floor : α → Int) (wr : α) (s : RState α) : Cmd α → RState α × Option Err
   | .band name init => addBand s name init
   | .add afOrder tracks => addColl floor s afOrder tracks
